@@ -230,6 +230,15 @@ def feature_circuits():
     out.append(("pickled_mixed_types", pickle.loads(pickle.dumps(mixed))))
     out.append(("deepcopied_unused_input_dead_gate", copy.deepcopy(build(["a", "b", "c"], [("g", G.AND, ("a", "b")), ("dead", G.OR, ("a", "g"))], ["g"]))))
     out.append(("deepcopied_bench_types", copy.deepcopy(build(["a", "b"], [("n", G.NOT, ("a",)), ("g", G.AND, ("n", "b")), ("o", G.OR, ("g", "a")), ("x", G.NXOR, ("o", "n"))], ["x", "g"]))))
+    # labels are arbitrary strings: the empty one (falsy), ones that contain what other modules print or split on
+    # (", ", "@", "#", a blank), digits only, equal up to case, not ASCII.  Gates that print alike are different gates:
+    # AND('a', 'b, c') vs AND('a, b', 'c'); '' and '#' compute the same function by different structure.
+    add("labels_with_special_content", ["a", "b, c", "a, b", "c"],
+        [("", G.AND, ("a", "b, c")), ("0", G.AND, ("a, b", "c")), ("x@y", G.NOT, ("a",)), (" ", G.NOT, ("b, c",)), ("#", G.NOR, ("x@y", " ")),
+         ("\u00e9", G.OR, ("", "0")), ("\u00c9", G.XOR, ("\u00e9", "#")), ("A", G.GT, ("\u00c9", "a"))], ["", "#", "0", "\u00c9", "A"])
+    add("labels_with_special_content_other_output_order", ["a", "b, c", "a, b", "c"],
+        [("0", G.AND, ("a, b", "c")), ("", G.AND, ("a", "b, c")), ("x@y", G.NOT, ("a",)), (" ", G.NOT, ("b, c",)), ("#", G.NOR, ("x@y", " ")),
+         ("1", G.OR, ("#", "0", ""))], ["#", "1", "", "0"])
     return out
 
 
